@@ -18,7 +18,7 @@ import (
 	zz "github.com/haqq-network/haqq/zzverif"
 )
 
-//verif:override github.com/haqq-network/haqq/app/ante/cosmos.VerifySignature -> c03VerifySignature
+//verif:override github.com/haqq-network/haqq/app/ante/cosmos.VerifySignature -> c03VerifySignature except=VerifC06_Eip712ExtensionOptions,VerifC03_Eip712LegacyCoverage
 
 var c03 struct {
 	calls  int
